@@ -773,3 +773,6 @@ func (e *Env) stepTolerant(op Op) (string, bool) {
 	}
 	return "", false
 }
+
+// ValidNames reports whether a walk name list is in the normal form the session accepts.
+func ValidNames(names []string) bool { return validNames(names) }
